@@ -512,3 +512,31 @@ pub fn check_c11(l: &Ledger) -> Vec<Violation> {
     }
     out
 }
+
+// ---------------------------------------------------------------------------------------------
+
+/// Bounded liveness once faults have stopped: a fresh request is delivered within 3 exchanges
+/// (challenge, retry, success at most). Returns (exchanges, last outcome) on failure.
+pub fn fresh_probe_failure(l: &Ledger) -> Option<(usize, String)> {
+    let app = l.fresh_probe_app?;
+    if l.truncated || l.panicked().is_some() {
+        return None;
+    }
+    // only demanded when a round trip fits into the request's lifetime at all
+    let (rc, rm, rto) = l.cfg.rc_rm_rto();
+    let deadline = schedule(0, rto, rc, rm).deadline;
+    if 2 * l.cfg.lat_ns + 1_000_000 >= deadline {
+        return None;
+    }
+    let g = last_gen(l);
+    let chain: Vec<&Tx> = l.txs.iter().filter(|t| t.app == app && t.gen == g).collect();
+    if chain.is_empty() {
+        return None; // the send was refused (capacity) or failed to encode: nothing to demand
+    }
+    let last = chain.last().unwrap();
+    match last.finals.first() {
+        Some((_, _, Outcome::Delivered(2))) if chain.len() <= 3 => None,
+        Some((_, _, o)) => Some((chain.len(), outcome_name(o))),
+        None => Some((chain.len(), "no outcome".to_string())),
+    }
+}
